@@ -87,7 +87,7 @@ def parse_afm(path):
             if cs.brackets_spec() is not None:
                 ctcs.append(tag("cb", cs.brackets_spec().WORD().getText(),
                                 [[expr(s.expression()), s.expression().getText()] for s in cs.brackets_spec().simple_spec()]))
-    return tag("adoc", rels, attrs, ctcs)
+    return fmt.assert_no_empty_group(tag("adoc", rels, attrs, ctcs), path)
 
 
 def afm_names(g, n):
